@@ -3112,15 +3112,28 @@ func (c *Ctx) entryNonNil(rule string) int {
 		// (b) followed, in the same statement list, by `if res == nil { return ..., <non-nil error> }`
 		if !guarded && res != nil && len(stack) > 0 {
 			var list []ast.Stmt
-			switch b := stack[len(stack)-1].(type) {
-			case *ast.BlockStmt:
-				list = b.List
-			case *ast.CaseClause:
-				list = b.Body
+			// the statement of a statement list that holds the assignment: the assignment itself, or
+			// the `if` whose init clause it is (`if t, err = doc.FirstTree(); err != nil {...}`)
+			var holder ast.Stmt = as
+			for i := len(stack) - 1; i >= 0 && list == nil; i-- {
+				switch b := stack[i].(type) {
+				case *ast.BlockStmt:
+					list = b.List
+				case *ast.CaseClause:
+					list = b.Body
+				case *ast.IfStmt:
+					if b.Init == holder {
+						holder = b
+						continue
+					}
+					i = -1
+				default:
+					i = -1
+				}
 			}
 			after := false
 			for _, s := range list {
-				if s == ast.Stmt(as) {
+				if s == holder {
 					after = true
 					continue
 				}
